@@ -5,7 +5,7 @@ Finished == s.th[0].pc = "finished"
 ExportInv == Finished => PrintT(<<"SCASE", ToJson([sched |-> hist.sched, lo |-> hist.lo, hi |-> hist.hi,
                                                      kind |-> Kind, scripts |-> Scripts, main |-> MainScript,
                                                      wakers |-> SetToSortSeq(DOMAIN WakerBits, <), chanbit |-> ChanBit,
-                                                     hprog |-> [w \in DOMAIN HProg |-> HProg[w]], cecho |-> CEcho])>>)
+                                                     hprog |-> [w \in DOMAIN HProg |-> HProg[w]], cecho |-> CEcho, gdf |-> GDF])>>)
 
 \* --- handler programs (run by wake handlers on the main thread, inside poll_wake)
 NoHProg == << >>
